@@ -128,6 +128,9 @@ def to_hashable(data: Any) -> Any:
         # mark dict in order to distinguish it from a list, e.g. {"a": 0} and ["a", 0]
         # (no sort of the keys because they can have mixed types)
         return dict, frozenset((k, to_hashable(v)) for k, v in data.items())
+    elif isinstance(data, bool):
+        # True == 1 and False == 0, but booleans are not numbers in JSON
+        return bool, data
     else:
         return data
 
